@@ -50,12 +50,17 @@ func (g *c12Gen) nodes(depth int, inMacro int) []MNode {
 	n := drawInt(g.t, 1, 4, "n")
 	var out []MNode
 	for i := 0; i < n; i++ {
-		kinds := []string{"text", "probe", "probe", "probe", "with", "for", "set", "if", "macro", "call", "include"}
+		kinds := []string{"text", "probe", "probe", "probe", "with", "for", "set", "if", "macro", "call", "include", "plainregion"}
 		k := pick(g.t, "k", kinds)
-		if depth <= 0 && (k == "with" || k == "for" || k == "if" || k == "macro" || k == "include") {
+		if depth <= 0 && (k == "with" || k == "for" || k == "if" || k == "macro" || k == "include" || k == "plainregion") {
 			k = "probe"
 		}
 		switch k {
+		case "plainregion":
+			// a set / macro definition inside is still there behind the region
+			e := g.expr()
+			body := append(g.nodes(depth-1, inMacro), MNode{K: "set", Name: pick(g.t, "rsn", c12Names), E: &e})
+			out = append(out, MNode{K: "plainregion", Name: pick(g.t, "region", []string{"autoescape", "spaceless"}), Body: body}, g.probe())
 		case "text":
 			out = append(out, MNode{K: "text", Text: pick(g.t, "tx", []string{"-", ".", "t", "|"})})
 		case "probe":
@@ -356,7 +361,7 @@ func genC12Ctx(t *rapid.T) (Val, Val) {
 
 var _ = register(&propSpec{
 	ID:   "C12.scope",
-	Rule: "nestings (depth <= 4) of with (both syntaxes, several pairs), for (lists, strings, maps k,v sorted, reversed, empty), macro definition/call (defaults, too many arguments), set, if, include (with pairs / only; included file rebinding and probing the same names) over 4 deliberately colliding names (a third of the macros live in a library file and are imported); a probe {{ name }} after every construct and inside every body; the same names also in Context and Globals with different values. Oracle: reference environment model (child scope = copy; with-pairs evaluated outside; one scope per for; macro body in a child of the defining scope taken at call time; include = fresh public context) predicts every probe; the caller's Context and the set's Globals must be deeply equal to freshly built copies afterwards; the compiled template is then rendered three more times - with the same context, with other values under the same names, with the first context again - and every rendering must match the reference for its context. Non-trivial: a name bound again inside a construct that already binds it.",
+	Rule: "nestings (depth <= 4) of with (both syntaxes, several pairs), for (lists, strings, maps k,v sorted, reversed, empty), macro definition/call (defaults, too many arguments), set, if, include (with pairs / only; included file rebinding and probing the same names) (also inside autoescape / spaceless regions, which are no scopes) over 4 deliberately colliding names (a third of the macros live in a library file and are imported); a probe {{ name }} after every construct and inside every body; the same names also in Context and Globals with different values. Oracle: reference environment model (child scope = copy; with-pairs evaluated outside; one scope per for; macro body in a child of the defining scope taken at call time; include = fresh public context) predicts every probe; the caller's Context and the set's Globals must be deeply equal to freshly built copies afterwards; the compiled template is then rendered three more times - with the same context, with other values under the same names, with the first context again - and every rendering must match the reference for its context. Non-trivial: a name bound again inside a construct that already binds it.",
 	Gen: func(t *rapid.T) any {
 		g := &c12Gen{t: t, files: map[string][]MNode{}}
 		root := g.nodes(3, -1)
